@@ -15,7 +15,7 @@ from props import C04
 import lexlib
 
 PKG = C04.PKG
-HEADER = ("Require Import SqlV.Base SqlV.PrecSpec SqlV.Pratt SqlV.PrinterCore "
+HEADER = ("Require Import SqlV.Base SqlV.PrecSpec SqlV.Pratt SqlV.PrinterCore SqlV.PrinterCoreProofs "
           "SqlVGen.PrecTables SqlVGen.DialectTables SqlVGen.PrinterTables.\nRequire SqlV.Lexer.\n")
 # prefix operators and their spelling, for the pair stream
 PREFIX = {"Plus": "+", "Minus": "-", "Tilde": "~", "AtSign": "@", "DoubleExclamationMark": "!!",
@@ -74,8 +74,12 @@ def core_cases(run, T):
     if run.tier != "thorough":
         keep = {"single", "single-prefix", "pair", "interior", "paren", "chain", "triple"}
         cases = [c for c in cases if c["stream"] in keep]
+    if run.tier != "thorough":
+        # quick: all singles / interior / parenthesis / chain cases, a third of the pairs and triples
+        cases = [c for c in cases if c["stream"] not in ("pair", "triple") or rng.random() < 0.34]
     for c in cases:
         c["sql"] = re.sub(r"\by(\d+)\b", lambda m: "x%d" % (60 + int(m.group(1))), c["sql"])
+        c["sql"] = re.sub(r"(?<![\w'])7(?![\w'])", "x77", c["sql"])   # number operands: atoms are x<n> / 's<n>' here
     extra = []
     for d in C04.DIALECTS:
         pres = ["-", "+", "NOT"] + (["~", "@", "!!", "|/", "||/"] if T["flags"][d]["is_pg"] else [])
@@ -222,13 +226,20 @@ def check_core(run, prop):
         else:
             pt = enc.toks(again["ptokens"])
         stats["in_fragment"] += 1
-        terms.append("(d_%s, optext_%s, dl_%s, %s, %s, %s)" % (d, d, d, term, coq_str(rs["text"]), pt))
+        rest_toks = enc.toks(r["tokens"][len(r["tokens"]) - rs["rest"]:]) if rs["rest"] else "[]"
+        if prop == "C01":
+            terms.append("(d_%s, optext_%s, dl_%s, %s, %s, %s, %s)" % (d, d, d, term, coq_str(rs["text"]), pt, rest_toks))
+        else:
+            terms.append("(optext_%s, %s, %s)" % (d, term, coq_str(rs["text"])))
         idx.append(i)
-    fn = "(fun c => match c with (d, ot, ld, e, text, pt) => c01_case d ot ld std_uni e text pt end)"
-    typ = "(Pratt.dialect * (N -> list N) * Lexer.dialect * expr * list N * list PrecSpec.tok)"
+    fn = "(fun c => match c with (d, ot, ld, e, text, pt, rest) => c01_full d ot ld std_uni e text pt rest end)"
+    typ = "(Pratt.dialect * (N -> list N) * Lexer.dialect * expr * list N * list PrecSpec.tok * list PrecSpec.tok)"
+    if prop != "C01":
+        fn = "(fun c => match c with (ot, e, text) => c05_case ot e text end)"
+        typ = "((N -> list N) * expr * list N)"
     codes = C04.run_coq_codes("c01core_" + prop.lower(), HEADER, terms, fn, typ, shard_size=1000)
-    bits = {1: "pp-vs-Display", 2: "printed-text-tokens", 4: "lexer-model-glue", 8: "model-token-roundtrip", 16: "content"}
-    relevant = (1, 2, 4, 8) if prop == "C01" else (1, 16)
+    bits = {1: "pp-vs-Display", 2: "printed-text-tokens", 4: "lexer-model-glue", 8: "model-token-roundtrip", 16: "content", 32: "image-predicate"}
+    relevant = (1, 2, 4, 8, 32) if prop == "C01" else (1, 16)
     cnt = {v: 0 for v in bits.values()}
     for i, cd in zip(idx, codes):
         c, r = cases[i], res[i]
@@ -247,7 +258,7 @@ def check_core(run, prop):
                     report("pp-model", {"what": "PrinterCore.pp and Display disagree", "unchecked": "correspondence PrinterCore.pp", **base}, no_input=True)
                 else:
                     report("model:" + bits[b], {"what": "operator-core model check failed", "unchecked": bits[b], **base},
-                           no_input=(b == 8))
+                           no_input=(b in (8, 32)))
     stats["model_checks_failed"] = cnt
     stats["wall_s"] = round(time.time() - t0, 1)
     note.update(stats)
